@@ -56,9 +56,15 @@ CHECKS = {
                      'unknown function, circular reference or Python error in the other branch, nested to depth 2 over AND/OR/NOT; AND/OR over 1..4 scalars and ranges = conjunction/disjunction of non-blank '
                      'elements; NOT negates; an error among evaluated arguments / as condition is the result.',
                 note=XH_NOTE + ' AND/OR over blanks only is not covered by the statement and excluded.'),
+    'C07': dict(engine='XH', technique='symbolic execution (CrossHair+z3) of operators, every registered function (live registry) and aggregates with an error object at a symbolic position/code and symbolic typed operands',
+                text='Bounded symbolic model checking: for each of the 13 operators (library + formula forms) an error at left/right/both is the result (leftmost wins) for ALL other operands over '
+                     'int/text/bool/blank; for every pair of scalar types (int, text, bool, blank, date) operators return a value or #VALUE!/#DIV/0!/#NUM! and never raise; every registered function '
+                     '(~100, enumerated at run time) x every argument position x 7 error codes returns that error; aggregates over lists and ranges; errors stored in cells and handed on; IS* truth tables.',
+                note=XH_NOTE + ' P4: dateutil.parser.parse is replaced while tracing by its contract (datetime or ValueError, chosen by a symbolic Boolean); P2b: repr() of a symbolic string is a constant. '
+                     'Texts in the no-crash family: quick = single characters of a 10-letter alphabet, thorough = printable ASCII (length 1) and that alphabet (length 2).'),
 }
 NA = {
     'C12': 'persist/restore is ten lines around jsonpickle -> json (C encoder) -> gzip/file I/O; no repo-side kernel a solver can quantify over (symbolic values are realised or pickled as proxy objects at the codec boundary)',
 }
-for _p in ['C07', 'C08', 'C11', 'C14', 'C15', 'C16', 'C18', 'C19', 'C20']:
+for _p in ['C08', 'C11', 'C14', 'C15', 'C16', 'C18', 'C19', 'C20']:
     NA.setdefault(_p, 'check not built yet in this revision (planned: see DESIGN.md §4)')
